@@ -384,6 +384,8 @@ func initTopicP2P(t *Topic, sreg *ClientComMessage) error {
 				users[u2].Access.Anon,
 				users[u2].Access.Auth,
 				types.ModeCP2P)
+			// Sanity check: user2's default access may hold permissions which do not exist in P2P topics.
+			userData.modeGiven = userData.modeGiven&types.ModeCP2P | types.ModeApprove
 
 			// By default assign the same mode that user1 gave to user2 (could be changed below)
 			userData.modeWant = sub2.ModeGiven
